@@ -4,7 +4,7 @@ mixes over /sys/block membership, boundary counters) and statvfs results."""
 import itertools
 import types
 
-from vf.harness import use_world, outcome, freeze, sample, guarded
+from vf.harness import use_world, outcome, freeze, sample, guarded, add_histories, history_of
 from vf.simk.world import World
 
 ID = "C09"
@@ -259,18 +259,18 @@ def run(ctx):
     cases = build_cases(ctx.thorough)
     n = max(1, len(cases) // (ctx.ncpu * 4))
     chunks = [(ctx.seed, cases[i:i + n]) for i in range(0, len(cases), n)]
-    res = [r for ch in ctx.pmap(worker, chunks, chunk=1) for r in ch]
+    res = [r for ch in ctx.pmap_fresh(worker, chunks) for r in ch]
     viols, kinds = [], {}
-    for c, bad in zip(cases, res):
+    for _i, (c, bad) in enumerate(zip(cases, res)):
         kinds[c[0]] = kinds.get(c[0], 0) + 1
         for cause, msg in bad:
-            viols.append({"cause": cause, "msg": msg, "case": list(c)})
+            viols.append({"cause": cause, "msg": msg, "case": list(c), "_idx": _i})
     cov = {"evaluations": len(cases), "distinct_nontrivial": len({repr(c) for c in cases}),
            "rule": "one evaluation = one /proc/net/dev or /proc/diskstats(+/sys/block) content or statvfs result read through the public "
                    "functions (per-device and total forms); distinct by construction; every column carries a distinct prime-scaled value",
            "per_dimension": kinds, "exhaustive": True, "samples": [list(c) for c in sample(cases, 6)],
            "layouts": [14, 18, 20, 7, 15]}
-    return {"coverage": cov, "violations": viols,
+    return {"coverage": cov, "violations": add_histories(viols, cases, n, list),
             "assumptions": ["15-field (Linux 2.4) layout: psutil's in-code description is the only specification; the reference adopts it",
                             "whole disk <=> /sys/block/<name with '/' -> '!'> exists"]}
 
@@ -278,12 +278,13 @@ def run(ctx):
 def replay(ctx, case):
     w = mk_world(ctx.seed)
     use_world(w)
-    c = list(case)
-    if c[0] == "net":
-        c[1] = [(n, cols) for n, cols in c[1]]
-    if c[0] == "net-seq":
-        c[1] = [(tuple(n), pf) for n, pf in c[1]]
-    if c[0] == "disk-useq":
-        c[1] = [tuple(n) for n in c[1]]
-    bad = guarded(run_case, tuple(c), w)
+    for c in history_of(case):
+        c = list(c)
+        if c[0] == "net":
+            c[1] = [(n, cols) for n, cols in c[1]]
+        if c[0] == "net-seq":
+            c[1] = [(tuple(n), pf) for n, pf in c[1]]
+        if c[0] == "disk-useq":
+            c[1] = [tuple(n) for n in c[1]]
+        bad = guarded(run_case, tuple(c), w)
     return {"violated": bool(bad), "viols": bad}
